@@ -47,6 +47,8 @@ def run(ctx, tier):
                    "password starts at the first ':' of the credentials")
     ctx.rule("T9", "opaque path state: the \"%20\" rewrite of a trailing space depends on the trailing space alone (the '#' was "
                    "cut off earlier, so it must not depend on a '?' having been found)")
+    ctx.rule("T10", "get_origin of both URL types spells the Standard's cases: \"null\", scheme + \"//\" + host, and the http(s) URL "
+                    "inside a blob URL's path")
     ctx.rule("S4", "in each state of the parser the set of URL components that the state's code sets equals the set the "
                    "Standard's state sets (both storing instantiations)")
     ctx.rule("S2", "direct failure exits of the parser fail under the flags the Standard names (atSignSeen for the empty authority)")
@@ -69,6 +71,7 @@ def run(ctx, tier):
         HS.check_shapes(ctx, fxs[name], "T7")
         HS.check_parser_literals(ctx, fxs[name], "T8")
         HS.check_opaque_space(ctx, fxs[name], "T9")
+        HS.check_origin(ctx, fxs[name], "T10")
         from rules import c01_failctx
         c01_failctx.check(ctx, fxs[name], "S2")
         from rules import lowercase
